@@ -2,7 +2,10 @@
 """Generate /verif/MANIFEST.json from checks.json (single source of truth for registered checks)."""
 import json, os
 V = os.path.dirname(os.path.dirname(os.path.abspath(__file__)))
+import glob
 reg = json.load(open(os.path.join(V, "checks.json")))
+for frag in sorted(glob.glob(os.path.join(V, "checks.d", "*.json"))):
+    reg["checks"].update(json.load(open(frag)))
 props = [json.loads(l)["id"] for l in open(os.path.join(V, "properties.jsonl")) if l.strip()]
 checks, na = [], []
 for pid in props:
